@@ -8,7 +8,7 @@
    Matchers (BlockBase.match, Main_Program0.match, the shared-DO and component-part loops) moreover
    never let a NoMatchError escape. *)
 From Coq Require Import List Bool Arith NArith Lia.
-From FV Require Import Scope Engine.
+From FV Require Import Scope Engine StmtError.
 Import ListNotations.
 
 Lemma yield_block c ks : yield (TBlock c ks) = yields ks.
@@ -339,17 +339,9 @@ Proof.
                   apply andb_true_iff in AB as [AB _]; exact AB|].
           split; [|exact CS2].
           rewrite !restore_stream, yields_single, <- E2, E1. symmetry; exact ES. }
-        destruct (if b_match_names b && mem (tcls t) (b_name_classes b)
-                  then match end_name (tinfo t) with
-                       | Some e0 => match start_name startinfo with
-                                    | Some s3 => if N.eqb e0 s3 then None else Some ESyntax
-                                    | None => Some ESyntax end
-                       | None => None end
-                  else None) as [e1|] eqn:E1'.
-        { assert (e1 = ESyntax) as ->.
-          { destruct (b_match_names b && mem (tcls t) (b_name_classes b)); [|discriminate].
-            destruct (end_name (tinfo t)); [|discriminate].
-            destruct (start_name startinfo); [destruct (N.eqb n n0)|]; congruence. }
+        destruct (stmt_error T b startinfo t
+                    (match b_end b with Some _ => mem (tcls t) (b_endall b) | None => false end)) as [e1|] eqn:E1'.
+        { assert (e1 = ESyntax) as -> by (exact (stmt_error_syntax _ _ _ _ _ _ E1')).
           cbn. split; [discriminate | intros _; exact CS2]. }
         destruct ((match b_end b with Some _ => mem (tcls t) (b_endall b) | None => false end)
                   && b_match_labels b && negb (oN_eqb (start_label startinfo) (end_label (tinfo t)))).
